@@ -276,14 +276,15 @@ def legacy_task(ctx, t):
         for fld in f['fields']:
             ev = ctx.enum_value(fld['enum']) & B.mask(W)
             ws = bpa.analyse(mod, fname, lambda: (args(Ptr(FC.PDU, 0), ev, Ptr(VAL, 0)), regs()),
-                             max_worlds=4, gcache=ctx.gcache)
-            if len(ws) != 1 or ws[0].status != 'ok':
-                out.append(('C11', 'undecided', key, '%s (valid arguments, %s): %s'
-                            % (where, fld['enum'], [w.reason for w in ws])))
+                             max_worlds=16, gcache=ctx.gcache)
+            oks, err = FC.ok_worlds(ws)
+            if err:
+                out.append(('C11', 'undecided', key, '%s (valid arguments, %s): %s' % (where, fld['enum'], err)))
                 return out
-            if ws[0].ret != 0:
+            badr = [w.ret for w in oks if w.ret != 0]
+            if badr:
                 out.append(('C11', 'violation', key, '%s: valid arguments (field %s) return %r instead of 0'
-                            % (where, fld['enum'], ws[0].ret)))
+                            % (where, fld['enum'], badr[0])))
                 return out
         return out
     raise ValueError(case)
